@@ -13,6 +13,7 @@ from pydoctor.templatewriter import (
 )
 
 from pydoctor.templatewriter.pages.table import ChildTable
+from pydoctor.templatewriter.pages.sidebar import ExpandableItem
 from twisted.python.failure import Failure
 from twisted.web.template import flattenString
 
@@ -84,6 +85,8 @@ class TemplateWriter(IWriter):
         # The tables of members are numbered from 1 in every run: what the ids are must 
         # not depend on what the process (sphinx extension, API use) has rendered before.
         ChildTable.last_id = 0
+        # Same thing for the expandable items of the sidebar (--sidebar-expand-depth).
+        ExpandableItem.last_ExpandableItem_id = 0
         for ob in obs:
             self._writeDocsFor(ob)
 
